@@ -1,6 +1,8 @@
 package main
 
 import (
+	_ "embed"
+	"encoding/json"
 	"fmt"
 	"go/ast"
 	"go/token"
@@ -252,6 +254,114 @@ func FuncName(fn *ssa.Function) string {
 // LookupFunc finds a package-level function or method: name is "Func" or "Type.Method"
 // (pointer or value receiver).
 func (p *Program) LookupFunc(pkgSuffix, name string) *ssa.Function {
+	if fn := p.lookupFuncByName(pkgSuffix, name); fn != nil {
+		return fn
+	}
+	return p.lookupRenamed(pkgSuffix, name)
+}
+
+// anchorTable: for every declared function of the module as it was when the rules were written
+// (package suffix → "Func" / "Type.Method" → signature with receiver). Generated by
+// `hclcheck -dump-anchors`; used only to recognise an anchor that has been renamed.
+//
+//go:embed anchors.json
+var anchorJSON []byte
+
+var anchorTable map[string]map[string]string
+
+// Renamed records the anchors that were resolved by signature (old name → new name).
+var Renamed = map[string]string{}
+
+func funcKeyAndSig(fn *ssa.Function) (string, string) {
+	key := fn.Name()
+	if recv := fn.Signature.Recv(); recv != nil {
+		t := recv.Type()
+		if pt, ok := t.(*types.Pointer); ok {
+			t = pt.Elem()
+		}
+		if nt, ok := t.(*types.Named); ok {
+			key = nt.Obj().Name() + "." + fn.Name()
+		}
+	}
+	// parameter and result types only (names may change with the function's name)
+	var ps, rs []string
+	for i := 0; i < fn.Signature.Params().Len(); i++ {
+		ps = append(ps, types.TypeString(fn.Signature.Params().At(i).Type(), nil))
+	}
+	for i := 0; i < fn.Signature.Results().Len(); i++ {
+		rs = append(rs, types.TypeString(fn.Signature.Results().At(i).Type(), nil))
+	}
+	sig := "func(" + strings.Join(ps, ", ") + ") (" + strings.Join(rs, ", ") + ")"
+	if fn.Signature.Variadic() {
+		sig += " variadic"
+	}
+	if recv := fn.Signature.Recv(); recv != nil {
+		sig = types.TypeString(recv.Type(), nil) + " " + sig
+	}
+	return key, sig
+}
+
+// declaredFuncs: the declared (non-synthetic, non-closure) functions and methods of a package.
+func (p *Program) declaredFuncs(pkgSuffix string) map[string]*ssa.Function {
+	out := map[string]*ssa.Function{}
+	sp := p.SSAPkg(pkgSuffix)
+	if sp == nil {
+		return out
+	}
+	for fn := range p.AllFuncs() {
+		if fn.Pkg != sp || fn.Parent() != nil || fn.Synthetic != "" || fn.Object() == nil {
+			continue
+		}
+		if fn.Origin() != nil && fn.Origin() != fn {
+			continue
+		}
+		k, _ := funcKeyAndSig(fn)
+		out[k] = fn
+	}
+	return out
+}
+
+// lookupRenamed: name does not resolve. If the table knows its former signature and exactly one
+// function of the package with that signature (and receiver) has a name the table does not know,
+// that function is the renamed anchor.
+func (p *Program) lookupRenamed(pkgSuffix, name string) *ssa.Function {
+	if anchorTable == nil {
+		anchorTable = map[string]map[string]string{}
+		_ = json.Unmarshal(anchorJSON, &anchorTable)
+	}
+	known := anchorTable[pkgSuffix]
+	want, ok := known[name]
+	if !ok {
+		return nil
+	}
+	recvPrefix := ""
+	if i := strings.Index(name, "."); i >= 0 {
+		recvPrefix = name[:i+1]
+	}
+	var cands []*ssa.Function
+	for k, fn := range p.declaredFuncs(pkgSuffix) {
+		if _, old := known[k]; old {
+			continue
+		}
+		if recvPrefix != "" && !strings.HasPrefix(k, recvPrefix) {
+			continue
+		}
+		if recvPrefix == "" && strings.Contains(k, ".") {
+			continue
+		}
+		if _, sig := funcKeyAndSig(fn); sig == want {
+			cands = append(cands, fn)
+		}
+	}
+	if len(cands) != 1 {
+		return nil
+	}
+	k, _ := funcKeyAndSig(cands[0])
+	Renamed[pkgSuffix+"."+name] = k
+	return cands[0]
+}
+
+func (p *Program) lookupFuncByName(pkgSuffix, name string) *ssa.Function {
 	sp := p.SSAPkg(pkgSuffix)
 	if sp == nil {
 		return nil
@@ -303,6 +413,19 @@ func (p *Program) LookupDecl(pkgSuffix, name string) (*ast.FuncDecl, *packages.P
 	if pkg == nil {
 		return nil, nil
 	}
+	if fd := p.lookupDeclByName(pkg, name); fd != nil {
+		return fd, pkg
+	}
+	// renamed anchor: resolve through the SSA function
+	if fn := p.lookupRenamed(pkgSuffix, name); fn != nil {
+		if fd := p.FuncDecl(fn); fd != nil {
+			return fd, pkg
+		}
+	}
+	return nil, nil
+}
+
+func (p *Program) lookupDeclByName(pkg *packages.Package, name string) *ast.FuncDecl {
 	tn, mn := "", name
 	if i := strings.Index(name, "."); i >= 0 {
 		tn, mn = name[:i], name[i+1:]
@@ -315,7 +438,7 @@ func (p *Program) LookupDecl(pkgSuffix, name string) (*ast.FuncDecl, *packages.P
 			}
 			if tn == "" {
 				if fd.Recv == nil {
-					return fd, pkg
+					return fd
 				}
 				continue
 			}
@@ -323,11 +446,11 @@ func (p *Program) LookupDecl(pkgSuffix, name string) (*ast.FuncDecl, *packages.P
 				continue
 			}
 			if recvTypeName(fd.Recv.List[0].Type) == tn {
-				return fd, pkg
+				return fd
 			}
 		}
 	}
-	return nil, nil
+	return nil
 }
 
 func recvTypeName(e ast.Expr) string {
